@@ -9,8 +9,8 @@ import (
 	"gitlab.com/gomidi/midi/v2/drivers/testdrv"
 	"gitlab.com/gomidi/midi/v2/internal/verifh/engine"
 	"gitlab.com/gomidi/midi/v2/internal/verifh/refsmf"
-	"gitlab.com/gomidi/midi/v2/internal/verifh/vtime"
 	sp "gitlab.com/gomidi/midi/v2/internal/verifh/smfspace"
+	"gitlab.com/gomidi/midi/v2/internal/verifh/vtime"
 	"gitlab.com/gomidi/midi/v2/smf"
 )
 
